@@ -312,9 +312,13 @@ func genField(r *Rng, kind string, inLimit bool) FV {
 	case "bool":
 		return boo(r.Bool())
 	case "ms":
-		switch r.Intn(5) {
+		switch r.Intn(7) {
 		case 0:
 			return nat(0)
+		case 5: // whole milliseconds (what callers configure): small and across the range
+			return nat(uint64(r.Intn(300000)) * 1000000)
+		case 6:
+			return nat((r.U64() % 4294967296) * 1000000)
 		case 1:
 			return nat(uint64(r.Intn(1000000))) // sub-millisecond
 		case 2:
@@ -412,7 +416,11 @@ func runC12(c *Ctx) {
 		c.Out.Tag(cid, "nontrivial=1 hash="+cid)
 	}
 	for _, kd := range c12Kinds {
-		for n := 0; n < per; n++ {
+		nk := per
+		if kd.name == "GlobalBegin" {
+			nk = per + c.Budget(6000, 60000) // cheap: sweep whole-millisecond timeouts as well
+		}
+		for n := 0; n < nk; n++ {
 			id++
 			r := rng.Fork()
 			inLimit := r.Chance(85)
@@ -420,6 +428,16 @@ func runC12(c *Ctx) {
 			within := true
 			for i, f := range kd.fields {
 				vs[i] = genField(r, f, inLimit)
+				if kd.name == "GlobalBegin" && f == "ms" && n >= per {
+					if k := n - per; k < 4000 {
+						vs[i] = nat(uint64(k) * 1000000) // 0..3999 ms consecutively
+					} else {
+						vs[i] = nat(uint64(r.Intn(4000000)) * 1000000)
+					}
+				}
+				if kd.name == "GlobalBegin" && f == "str2" && n >= per && len(vs[i].B) > 16 {
+					vs[i].B = vs[i].B[:16]
+				}
 				if !withinField(f, vs[i]) {
 					within = false
 				}
